@@ -17,10 +17,18 @@ scheduled 1.5 s after the moment nothing was outstanding any more, ends it
 (`C04_not_ended_by_response`, `C04_not_ended_by_timeout`, `C04_endgame_delay`,
 `C04_query_timeout_delay`); the timer hands out entries in deadline order and `cancel` removes
 exactly the cancelled entry (`C04_timer_order`, `C04_timer_cancel`).
-NOT proved in Lean: the quantitative upper bound "1.5 s per distinct node + 3 s" (it needs the
-timer contract of tokio and a counting argument over the whole run); it is decided by the tie (the
-`[C04]` oracles of the `handler` engine on silent, lossy, chain and hostile networks). C04 is
-**partial** in this sense.
+The quantitative upper bound is proved under the timer contract stated as a hypothesis of the run
+(`PunctualRun J`: whenever the handler runs, no pending timer entry is overdue by more than `J` —
+tokio's timers fire within 1 ms of their deadline; with `J = 0` the bound is the property's):
+`C04_deadline_invariant` — in every punctual run every stored search has, outside the end-game,
+something outstanding and a pending timeout entry for every outstanding query, due by
+`T0 + (1.5 s + J)·(1 + k)`, and in the end-game a pending end-game entry due 1.5 s (+ J) later,
+where `k` is the number of nodes queried after the first round (each such node was named in an
+answer: `C04_later_rounds_query_named_nodes`; each round after the first is started by an answer
+that beat its own timeout and queries a node never queried before); `C04_upper` — hence a search
+that is still open at `now` satisfies `now ≤ T0 + (1.5 s + J)·(1 + k) + 1.5 s + 2·J`, i.e. it
+closes no later than 1.5 s per node it was told about (and queried) plus 3 s; `C04_silent` — if
+nobody answers, `k = 0`: about 3 s. The timer contract itself (tokio) is assumed, not proved.
 -/
 namespace Btdht
 
@@ -140,5 +148,118 @@ theorem C04_timer_cancel {τ} (t : Timer τ) (key : Nat × Nat) (e : TimerEntry 
     by_cases a : e.deadline = key.1
     · exact Or.inr (fun b => h2 ⟨a, b⟩)
     · exact Or.inl a
+
+/-! ### the quantitative bound -/
+
+/-- a run of the handler: what it reacts to, with the instant of each reaction -/
+def HState.runOps (s : HState) : List (HOp × Nat) → HState
+  | [] => s
+  | (op, now) :: rest => HState.runOps (s.hstep op now) rest
+
+/-- the ghost bookkeeping along a run: start instant and first-round size of every search started -/
+def ghostRun (g : Nat → Nat × Nat) (s : HState) : List (HOp × Nat) → (Nat → Nat × Nat)
+  | [] => g
+  | (op, now) :: rest => ghostRun (ghostStep g s op now) (s.hstep op now) rest
+
+/-- the timer contract along a run: whenever the handler runs, nothing pending is overdue by more
+than `J` -/
+def PunctualRun (J : Nat) (s : HState) : List (HOp × Nat) → Prop
+  | [] => True
+  | (op, now) :: rest => Punctual J s now ∧ PunctualRun J (s.hstep op now) rest
+
+theorem runOps_dl (J : Nat) : ∀ (ops : List (HOp × Nat)) (g : Nat → Nat × Nat) (s : HState), HDl J g s → PunctualRun J s ops →
+    HDl J (ghostRun g s ops) (s.runOps ops)
+  | [], _, _, h, _ => h
+  | (op, now) :: rest, g, s, h, hp => runOps_dl J rest _ _ (hstep_dl J g s op now h hp.1) hp.2
+
+/-- **C04 (deadline invariant)**: in every punctual run of the handler — any interleaving of
+queries, answers (solicited or not, from anybody), search starts and timer firings, any number of
+concurrent searches — every stored search satisfies `LInv`: outside the end-game something is
+outstanding and every outstanding query has a pending timeout entry due by
+`T0 + (1.5 s + J)·(1 + k)`; in the end-game its end-game entry is pending and due by that
+`+ J + 1.5 s`; `k` = nodes queried after the first round. -/
+theorem C04_deadline_invariant (J : Nat) (selfId : Bytes) (v6 ro : Bool) (port : Option Nat) (fa : List Addr) (t0 : Nat)
+    (ops : List (HOp × Nat)) (hp : PunctualRun J (HState.new selfId v6 ro port fa t0) ops)
+    (l : Lookup) (hl : l ∈ ((HState.new selfId v6 ro port fa t0).runOps ops).lookups) :
+    let g := ghostRun (fun _ => (0, 0)) (HState.new selfId v6 ro port fa t0) ops
+    LInv J (g l.aid).1 (g l.aid).2 ((HState.new selfId v6 ro port fa t0).runOps ops).timer l :=
+  (runOps_dl J ops _ _ (hdl_new J _ selfId v6 ro port fa t0) hp).inv l hl
+
+/-- **C04 (upper bound)**: a search that is still open at an instant `now` at which the timer
+contract holds was started at most `(1.5 s + J)·(1 + k) + 1.5 s + 2·J` ago, `k` being the number of
+nodes it queried after its first round. With exact timers (`J = 0`): `3 s + 1.5 s · k` — "no later
+than 1.5 s per distinct node it was told about plus 3 s". -/
+theorem C04_upper (J : Nat) (selfId : Bytes) (v6 ro : Bool) (port : Option Nat) (fa : List Addr) (t0 : Nat)
+    (ops : List (HOp × Nat)) (hp : PunctualRun J (HState.new selfId v6 ro port fa t0) ops)
+    (l : Lookup) (hl : l ∈ ((HState.new selfId v6 ro port fa t0).runOps ops).lookups)
+    (now : Nat) (hnow : Punctual J ((HState.new selfId v6 ro port fa t0).runOps ops) now) :
+    let g := ghostRun (fun _ => (0, 0)) (HState.new selfId v6 ro port fa t0) ops
+    now ≤ (g l.aid).1 + (1500000000 + J) * (1 + (l.requested.length - (g l.aid).2)) + 1500000000 + 2 * J := by
+  intro g
+  have hinv := C04_deadline_invariant J selfId v6 ro port fa t0 ops hp l hl
+  have hb : roundBound (g l.aid).1 J (l.requested.length - (g l.aid).2) =
+      (g l.aid).1 + (1500000000 + J) * (1 + (l.requested.length - (g l.aid).2)) := by
+    simp only [roundBound, lookupNs, lookupTimeout_eq]
+  cases hE : l.inEndgame with
+  | false =>
+    obtain ⟨hne, hreg⟩ := hinv.reg hE
+    obtain ⟨e0, he0⟩ := List.exists_mem_of_ne_nil _ hne
+    obtain ⟨te, h1, _, _, h4⟩ := hreg e0 he0
+    have := hnow te h1
+    rw [hb] at h4
+    omega
+  | true =>
+    obtain ⟨te, h1, _, _, h3⟩ := hinv.eg hE
+    have := hnow te h1
+    rw [hb] at h3
+    simp only [endgameNs, endgameTimeout_eq] at h3
+    omega
+
+/-- **C04 (nobody answers)**: a search none of whose queries was answered queried nobody after its
+first round, so it is closed about 3 s after it started (one 1.5 s query timeout plus one 1.5 s
+end-game, plus the timers' lateness). -/
+theorem C04_silent (J : Nat) (selfId : Bytes) (v6 ro : Bool) (port : Option Nat) (fa : List Addr) (t0 : Nat)
+    (ops : List (HOp × Nat)) (hp : PunctualRun J (HState.new selfId v6 ro port fa t0) ops)
+    (l : Lookup) (hl : l ∈ ((HState.new selfId v6 ro port fa t0).runOps ops).lookups)
+    (now : Nat) (hnow : Punctual J ((HState.new selfId v6 ro port fa t0).runOps ops) now)
+    (hsilent : l.requested.length = ((ghostRun (fun _ => (0, 0)) (HState.new selfId v6 ro port fa t0) ops) l.aid).2) :
+    now ≤ ((ghostRun (fun _ => (0, 0)) (HState.new selfId v6 ro port fa t0) ops) l.aid).1 + 3000000000 + 3 * J := by
+  have := C04_upper J selfId v6 ro port fa t0 ops hp l hl now hnow
+  simp only [hsilent, Nat.sub_self] at this
+  omega
+
+/-- **C04 (whom the later rounds query)**: handling an answer, a search only ever queries — beyond
+those it had queried already — nodes that this very answer names (for the node's address family);
+query timeouts and the end-game round add nobody. So `k` in `C04_upper` counts distinct nodes the
+search was told about. -/
+theorem C04_later_rounds_query_named_nodes (l : Lookup) (env : LEnv) (fr : Handle) (tid : Tid) (rsp : Resp) :
+    (∀ h ∈ (l.recvResponse env fr tid rsp).1.requested,
+      h ∈ l.requested ∨ h ∈ (if l.v6 then rsp.nodes6 else rsp.nodes4)) ∧
+    (l.endgameRound env).1.requested = l.requested :=
+  ⟨recvResponse_requested l env fr tid rsp, endgameRound_requested l env⟩
+
+/-- the ghost value of a search is the instant it was started and the size of its first round ... -/
+theorem C04_ghost_start (g : Nat → Nat × Nat) (s : HState) (target : Bytes) (ann : Bool) (now : Nat) :
+    (ghostStep g s (.start target ann) now) s.nextAid =
+      (now, (Lookup.new s.nextAid s.nextStream s.selfId s.v6 target ann (s.env now)).1.requested.length) := by
+  simp [ghostStep]
+
+/-- ... and is never changed afterwards (action ids are handed out in increasing order) -/
+theorem C04_ghost_stable (g : Nat → Nat × Nat) (s : HState) (op : HOp) (now a : Nat) (ha : a < s.nextAid) :
+    (ghostStep g s op now) a = g a := by
+  cases op with
+  | start target ann => simp only [ghostStep]; rw [if_neg (Nat.ne_of_lt ha)]
+  | incoming tid body src => rfl
+  | fire => rfl
+
+/-- Non-vacuity: the premises are satisfiable — e.g. a node that only ever takes in unsolicited
+answers has nothing pending, so the timer contract holds at every instant (runs with searches in
+which every entry fires within 1 ms of its deadline are produced by the `handler` engine on the
+real `DhtHandler` and the model in lockstep). -/
+example : PunctualRun 0 (HState.new (List.replicate 20 0) false false none [] 0)
+    [(.incoming (.raw [1, 2]) (.resp { id := List.replicate 20 2, values := [], nodes4 := [], nodes6 := [], token := none })
+        ⟨false, [10, 0, 0, 1], 1⟩, 7),
+     (.incoming (.raw [3]) (.err 201 [110, 111]) ⟨false, [10, 0, 0, 1], 1⟩, 9)] := by
+  simp [PunctualRun, Punctual, HState.new, Timer.new, HState.hstep, HState.handleIncoming, HState.handleResponse, InTid.route]
 
 end Btdht
